@@ -71,6 +71,10 @@ pub enum UK {
     WaitCancelled { slot: u64 },
     /// the guard's value was armed to panic in close(): its drop unwinds out of SlotGuard::drop
     SlotBomb { obj: u64 },
+    /// a second unit-of-work entry (B) entrusted one of its flush guards to slot guard `slot` (of the entry under
+    /// test) through delay_flush; B's owner was dropped right afterwards
+    ForeignEntrusted { slot: u64 },
+    ForeignAppend { slot: u64 },
 }
 
 #[derive(Clone, Debug)]
@@ -109,6 +113,18 @@ impl EntrySink<RootMetric<Work>> for RecSink {
     }
 }
 
+/// sink of the second entry (B) of `late_delay` with `foreign`
+#[derive(Clone)]
+pub struct ForeignSink(ULog, u64);
+impl EntrySink<RootMetric<Work>> for ForeignSink {
+    fn append(&self, _entry: RootMetric<Work>) {
+        self.0.log(UK::ForeignAppend { slot: self.1 });
+    }
+    fn flush_async(&self) -> FlushWait {
+        FlushWait::ready()
+    }
+}
+
 type Owner = AppendAndCloseOnDrop<Work, RecSink>;
 
 enum Obj {
@@ -129,6 +145,9 @@ impl Table {
     fn put(&self, id: u64, o: Obj) {
         self.objs.lock().unwrap().insert(id, o);
         detsim::unblock(self.key);
+    }
+    fn try_take(&self, id: u64) -> Option<Obj> {
+        self.objs.lock().unwrap().remove(&id)
     }
     fn take(&self, id: u64) -> Obj {
         loop {
@@ -402,6 +421,66 @@ fn uow_main(plan: &Value, log: ULog) {
                     }
                 }
             }
+            "late_delay" => {
+                // delay_flush on a slot guard that left the owner long ago - perhaps after the owner is gone, perhaps
+                // on a guard that is waiting already (the flush guard it held is let go inside the call). The new flush
+                // guard is one the owner handed out earlier and the plan kept aside (`guard`), or one of a second
+                // entry B (`foreign`), whose owner is dropped right afterwards: B must then wait for this slot guard.
+                let sid = ju(op, "slot", 0);
+                let foreign = jb(op, "foreign", false);
+                let kept = if foreign { None } else { table.try_take(ju(op, "guard", 0)) };
+                let b_owner = if foreign { Some(Work::default().append_on_drop(ForeignSink(log.clone(), sid))) } else { None };
+                let new_guard = match (&b_owner, kept) {
+                    (Some(b), _) => Some(b.flush_guard()),
+                    (None, Some(Obj::Flush(f))) => Some(f),
+                    _ => None,
+                };
+                if let Some(fg) = new_guard {
+                    match table.try_take(sid) {
+                        Some(mut sg @ (Obj::Slot1(_) | Obj::Slot2(_))) => {
+                            // the flush guard the slot guard held so far (if any) is dropped inside the call
+                            let held = log.snapshot().iter().rev().find_map(|e| match &e.k { UK::Create { obj, kind } if *obj == sid => Some(*kind), _ => None });
+                            let was_holding = matches!(held, Some("slot_wait") | Some("slot_delay"));
+                            let pseudo = 20_000 + sid;
+                            if was_holding {
+                                log.log(UK::Create { obj: pseudo, kind: "flush" });
+                                log.log(UK::DropBegin { obj: pseudo });
+                            }
+                            match &mut sg {
+                                Obj::Slot1(g) => g.delay_flush(fg),
+                                Obj::Slot2(g) => g.delay_flush(fg),
+                                _ => {}
+                            }
+                            if was_holding {
+                                log.log(UK::DropEnd { obj: pseudo });
+                            }
+                            if foreign {
+                                // for the entry under test the slot guard holds nothing any more
+                                log.log(UK::Create { obj: sid, kind: "slot_discard" });
+                                log.log(UK::ForeignEntrusted { slot: sid });
+                            } else {
+                                log.log(UK::Create { obj: ju(op, "guard", 0), kind: "absorbed" });
+                                log.log(UK::Create { obj: sid, kind: "slot_delay" });
+                            }
+                            table.put(sid, sg);
+                        }
+                        other => {
+                            // the slot guard is gone (or being dropped right now): the flush guard is simply dropped
+                            if let Some(o) = other {
+                                table.put(sid, o);
+                            }
+                            if !foreign {
+                                log.log(UK::DropBegin { obj: ju(op, "guard", 0) });
+                                drop(fg);
+                                log.log(UK::DropEnd { obj: ju(op, "guard", 0) });
+                            } else {
+                                drop(fg);
+                            }
+                        }
+                    }
+                }
+                drop(b_owner);
+            }
             "to_handle" => {
                 if let Some(o) = owner.take() {
                     let h = o.handle();
@@ -436,6 +515,16 @@ fn uow_main(plan: &Value, log: ULog) {
     }
     for h in hs {
         let _ = h.join();
+    }
+    // whatever is still in the table (only for shrunk plans, or a flush guard that was kept aside and never used)
+    // is dropped like everything else: logged
+    let left: Vec<u64> = table.objs.lock().unwrap().keys().copied().collect();
+    for id in left {
+        if let Some(o) = table.try_take(id) {
+            log.log(UK::DropBegin { obj: id });
+            drop(o);
+            log.log(UK::DropEnd { obj: id });
+        }
     }
 }
 
@@ -603,6 +692,22 @@ pub fn check_c13(h: &[UEv]) -> Option<Violation> {
                 }
             }
             _ => {}
+        }
+    }
+    // a second entry that entrusted a flush guard to a slot guard of this one waits for that slot guard
+    for e in h {
+        if let UK::ForeignEntrusted { slot } = &e.k {
+            let appended: Vec<u64> = h.iter().filter(|x| matches!(&x.k, UK::ForeignAppend { slot: s } if s == slot)).map(|x| x.seq).collect();
+            let inv = m.drop_inv.get(slot).copied();
+            if appended.len() > 1 {
+                return Some(Violation::new("appended_twice", format!("the second entry (which entrusted a flush guard to slot guard {slot}) was appended {} times", appended.len())));
+            }
+            match (appended.first(), inv) {
+                (Some(a), Some(i)) if *a > i => {}
+                (Some(a), _) => return Some(Violation::new("appended_too_early", format!("a second entry entrusted one of its flush guards to slot guard {slot} through delay_flush (#{}) and its owner was dropped; it was appended at #{a}, before the drop of that slot guard began ({inv:?})", e.seq))),
+                (None, Some(_)) if m.drop_ret.contains_key(slot) && !m.forgotten.contains(slot) => return Some(Violation::new("never_appended", format!("the second entry, whose only flush guard was held by slot guard {slot}, was never appended although that guard has been dropped"))),
+                _ => {}
+            }
         }
     }
     // the entry itself: exactly once, and not "not at all" (whatever happened to the slots)
@@ -829,6 +934,28 @@ pub fn gen_uow(rng: &mut Rng, slots: bool) -> Value {
                 droppers[who as usize].push(json!({"op":"sleep","ns": 1_000 * (1 + rng.below(50))}));
             }
             droppers[who as usize].push(op);
+        }
+    }
+    // A third of the plans with a slot guard: delay_flush is called on it late - after the owner has been released, or
+    // right after the slot was opened - with a flush guard that the owner handed out before the slot was opened and
+    // that was kept aside (object 90), or with a flush guard of a second entry whose owner is dropped at once.
+    // (Decided from a copy of the generator: no draw moves.)
+    let peek = rng.clone().next_u64();
+    let slot_objs: Vec<u64> = objs.iter().filter(|(_, is_slot)| *is_slot).map(|(id, _)| *id).collect();
+    if slots && !any_overwrite && !slot_objs.is_empty() && peek % 3 == 0 {
+        let sid = slot_objs[(peek / 3) as usize % slot_objs.len()];
+        let foreign = (peek / 64) % 3 == 0;
+        let open_pos = main_ops.iter().position(|o| js(o, "op", "") == "open_slot" && ju(o, "obj", 0) == sid);
+        let owner_now = main_ops.iter().position(|o| matches!(js(o, "op", ""), "release_owner" | "to_handle"));
+        if let (Some(op_pos), Some(ow_pos)) = (open_pos, owner_now) {
+            // where the late call goes: right after the owner is released (two thirds), or right after the open
+            let at = if (peek / 512) % 3 == 0 { op_pos + 1 } else { ow_pos + 1 };
+            if foreign {
+                main_ops.insert(at, json!({"op":"late_delay","slot":sid,"foreign":true}));
+            } else {
+                main_ops.insert(at, json!({"op":"late_delay","slot":sid,"guard":90}));
+                main_ops.insert(op_pos, json!({"op":"flush_guard","obj":90}));
+            }
         }
     }
     let sched = gen_sched(rng, &SchedOpts { est_choices: 150, threads: nd + 1, jump_max_ns: 0, stall_clock_max_ns: 0, max_steps: 30_000 });
